@@ -163,4 +163,107 @@ theorem head_sortDesc {key : α → Int} {l : List α} (hne : l ≠ []) :
     · exact Int.le_refl _
     · exact hs.1 x hx'
 
+/-! ### stability: among equal keys the descending order keeps the input order -/
+
+/-- `t` is the first element of `l` with maximal key -/
+def FirstMax (key : α → Int) (l : List α) (t : α) : Prop :=
+  ∃ pre post, l = pre ++ t :: post ∧ (∀ x ∈ pre, key x < key t) ∧ (∀ x ∈ post, key x ≤ key t)
+
+theorem insertBy_keep_last {key : α → Int} {x t0 : α} (L0 : List α) (h : key x ≤ key t0) :
+    ∃ L', insertBy key x (L0 ++ [t0]) = L' ++ [t0] := by
+  induction L0 with
+  | nil => exact ⟨[x], by simp [insertBy, h]⟩
+  | cons a L ih =>
+    obtain ⟨L', hL'⟩ := ih
+    show ∃ L', insertBy key x (a :: (L ++ [t0])) = L' ++ [t0]
+    unfold insertBy
+    split
+    · exact ⟨x :: a :: L, rfl⟩
+    · exact ⟨a :: L', by rw [hL']; rfl⟩
+
+theorem insertBy_above {key : α → Int} {x : α} (L : List α) (h : ∀ y ∈ L, key y < key x) :
+    insertBy key x L = L ++ [x] := by
+  induction L with
+  | nil => rfl
+  | cons a L ih =>
+    have ha := h a (List.mem_cons_self ..)
+    unfold insertBy
+    rw [if_neg (by omega), ih (fun y hy => h y (List.mem_cons_of_mem _ hy))]
+    rfl
+
+theorem sortBy_last {key : α → Int} (r : List α) (hne : r ≠ []) :
+    ∃ L0 t, sortBy key r = L0 ++ [t] ∧ FirstMax key r.reverse t := by
+  induction r with
+  | nil => exact absurd rfl hne
+  | cons x xs ih =>
+    cases xs with
+    | nil => exact ⟨[], x, rfl, [], [], rfl, (fun _ h => by cases h), (fun _ h => by cases h)⟩
+    | cons x' xs' =>
+      obtain ⟨L0, t0, hs, pre, post, hl, hpre, hpost⟩ := ih (by simp)
+      have hrev : (x :: x' :: xs').reverse = pre ++ t0 :: post ++ [x] := by
+        rw [List.reverse_cons, hl]
+      by_cases hx : key x ≤ key t0
+      · obtain ⟨L', hL'⟩ := insertBy_keep_last (key := key) L0 hx
+        refine ⟨L', t0, ?_, pre, post ++ [x], by rw [hrev]; simp, hpre, ?_⟩
+        · show insertBy key x (sortBy key (x' :: xs')) = _
+          rw [hs, hL']
+        · intro y hy
+          rcases List.mem_append.mp hy with hy | hy
+          · exact hpost y hy
+          · rw [List.mem_singleton.mp hy]; exact hx
+      · have hall : ∀ y ∈ (x' :: xs').reverse, key y < key x := by
+          intro y hy
+          rw [hl] at hy
+          rcases List.mem_append.mp hy with hy | hy
+          · have := hpre y hy; omega
+          · rcases List.mem_cons.mp hy with rfl | hy
+            · omega
+            · have := hpost y hy; omega
+        refine ⟨sortBy key (x' :: xs'), x, ?_, (x' :: xs').reverse, [], by simp, hall,
+          fun _ h => by cases h⟩
+        show insertBy key x (sortBy key (x' :: xs')) = _
+        exact insertBy_above _ (fun y hy => hall y (List.mem_reverse.mpr (mem_sortBy.mp hy)))
+
+/-- the head of the descending order is the first element with maximal key -/
+theorem head_sortDesc_first {key : α → Int} {l : List α} (hne : l ≠ []) :
+    ∃ t rest, (sortBy key l.reverse).reverse = t :: rest ∧ FirstMax key l t := by
+  obtain ⟨L0, t, hs, hf⟩ := sortBy_last (key := key) l.reverse (by simpa using hne)
+  rw [List.reverse_reverse] at hf
+  exact ⟨t, L0.reverse, by rw [hs]; simp, hf⟩
+
+theorem FirstMax.find {key : α → Int} {l : List α} {t : α} (h : FirstMax key l t) :
+    l.find? (fun t => l.all (fun r => decide (key r ≤ key t))) = some t := by
+  obtain ⟨pre, post, hl, hpre, hpost⟩ := h
+  rw [List.find?_eq_some_iff_append]
+  have htm : t ∈ l := by rw [hl]; simp
+  refine ⟨?_, pre, post, hl, ?_⟩
+  · rw [List.all_eq_true]
+    intro y hy
+    rw [hl] at hy
+    simp only [decide_eq_true_eq]
+    rcases List.mem_append.mp hy with hy | hy
+    · have := hpre y hy; omega
+    · rcases List.mem_cons.mp hy with rfl | hy
+      · omega
+      · exact hpost y hy
+  · intro a ha
+    have := hpre a ha
+    simp only [Bool.not_eq_true', List.all_eq_false]
+    exact ⟨t, htm, by simp only [decide_eq_true_eq]; omega⟩
+
+theorem FirstMax.mem {key : α → Int} {l : List α} {t : α} (h : FirstMax key l t) : t ∈ l := by
+  obtain ⟨pre, post, hl, _, _⟩ := h
+  rw [hl]; simp
+
+theorem FirstMax.max {key : α → Int} {l : List α} {t : α} (h : FirstMax key l t) :
+    ∀ x ∈ l, key x ≤ key t := by
+  obtain ⟨pre, post, hl, hpre, hpost⟩ := h
+  intro y hy
+  rw [hl] at hy
+  rcases List.mem_append.mp hy with hy | hy
+  · have := hpre y hy; omega
+  · rcases List.mem_cons.mp hy with rfl | hy
+    · omega
+    · exact hpost y hy
+
 end Aw.Store.Peewee.Aux
